@@ -23,6 +23,7 @@ package main
 import (
 	"bytes"
 	"encoding/hex"
+	"encoding/json"
 	"fmt"
 	"io"
 	"math/rand"
@@ -733,6 +734,7 @@ func (x *ctx) inspect(where string) {
 			x.r.Count("unregistered_equipment_lists_empty", 1)
 		}
 	}
+	publishForgedOffer(snap.Servers, x.g.rng)
 	for _, s := range snap.Servers {
 		rs := refenc.AuthServer{Pub: s.PublicKey, Banned: s.Banned, Location: s.Location, HTTP: s.HttpPort, TCP: s.TcpPort, UDP: s.UdpPort, Sig: s.GCAAuthorization}
 		if !verify(rs.SigningBytes(), rs.Sig) {
@@ -819,7 +821,22 @@ func (x *ctx) linearizable(timeout time.Duration) {
 
 // ---------------------------------------------------------------- sink for the server's fan-out
 
-var sinkHits atomic.Int64
+var sinkHits, sinkGets atomic.Int64
+var sinkOffer atomic.Value
+
+func publishForgedOffer(list []server.AuthorizedServer, rng *rand.Rand) {
+	var forged []server.AuthorizedServer
+	for _, s := range list {
+		s.Banned = true // keeps the signature made for the un-banned record (or the ban's own, which changes nothing)
+		forged = append(forged, s)
+	}
+	var nk [32]byte
+	rng.Read(nk[:])
+	forged = append(forged, server.AuthorizedServer{PublicKey: nk, Location: "127.0.0.1", HttpPort: 1, TcpPort: 2, UdpPort: 3})
+	if b, err := json.Marshal(map[string]interface{}{"AuthorizedServers": forged}); err == nil {
+		sinkOffer.Store(b)
+	}
+}
 
 func startSink() (uint16, func(), error) {
 	l, err := net.Listen("tcp", "127.0.0.1:0")
@@ -829,6 +846,17 @@ func startSink() (uint16, func(), error) {
 	hs := &http.Server{Handler: http.HandlerFunc(func(w http.ResponseWriter, r *http.Request) {
 		io.Copy(io.Discard, r.Body)
 		sinkHits.Add(1)
+		if r.Method == http.MethodGet {
+			// a peer that is asked for anything answers with a forged list of authorized servers: the records the
+			// server under test holds, each turned into a ban without a new signature, plus an unsigned newcomer
+			// (the unchanged server never asks its peers; one that does must verify what it is told)
+			sinkGets.Add(1)
+			if b, ok := sinkOffer.Load().([]byte); ok {
+				w.Header().Set("Content-Type", "application/json")
+				w.Write(b)
+				return
+			}
+		}
 		w.WriteHeader(200)
 	})}
 	go hs.Serve(l)
@@ -870,6 +898,7 @@ func childBase(b run.Batch, r *ev.Result) {
 		delayCell(b, r, sink)
 	}
 	r.Count("sink_requests", sinkHits.Load())
+	r.Count("sink_get_requests_answered_with_a_forged_list", sinkGets.Load())
 }
 
 func newCtx(b run.Batch, r *ev.Result, sink uint16, name string, seed int64) (*ctx, error) {
